@@ -2,7 +2,7 @@
   C20 — The protocol core reaches the outside world only through the port API.
   A finite statement about build products: the tables in Generated/Symbols.lean
   are produced by tools/props/c20.py from the working tree on every run
-  (12 native compiler configurations with `ld -r` + `nm -u`, 6 cross-target ones — Apple hosted, 32-bit x86, bare-metal ARM —
+  (15 native compiler configurations with `ld -r` + `nm -u`, 6 cross-target ones — Apple hosted, 32-bit x86, bare-metal ARM —
   with `llvm-nm`; the declarators of the
   preprocessed lltdPort.h; include lines; the lint's two regexes).  The
   translator carries the weight and is in the trusted base.
@@ -29,8 +29,8 @@ def freestandingHeaders : List String :=
 
 def symbolOk (s : String) : Bool := Sym.portApi.contains s || memPrims.contains s || compilerRt.contains s
 
-/-- all eighteen configurations (twelve native, six for other targets the repository has ports for) produced a symbol table -/
-theorem configurations : Sym.undef.length = 18 := by decide
+/-- all twenty-one configurations (fifteen native incl. -O3 / -Ofast, six for other targets the repository has ports for) produced a symbol table -/
+theorem configurations : Sym.undef.length = 21 := by decide
 
 /-- every undefined symbol of the relocatably linked core, under every configuration, is a port function,
     a memory primitive or compiler runtime -/
